@@ -195,9 +195,9 @@ func runC14(r *rt.Run) {
 	lats := []float64{-90, -89.999, -60, -1e-9, 0, 1e-9, 33, 60, 89.999, 90}
 	lons := []float64{-180, -179.999, -90, 0, 90, 179.999, 180}
 	if th {
-		lats = append(lats, -89.999999, -75, -45, 45, 75, 85, 89.999999)
-		lons = append(lons, -179.9999999, -135, 45, 135, 179.9999999)
-		radii = append(radii, 100, 1e4, 3e6, 2e7)
+		lats = append(lats, -89.999999, -75, -45, -30, -15, 15, 30, 45, 75, 85, 89.999999, 89.99, -89.99, 1e-300)
+		lons = append(lons, -179.9999999, -135, -45, -1e-9, 1e-9, 45, 135, 179.9999999, 179.99, -179.99)
+		radii = append(radii, 100, 1e4, 3e6, 2e7, 5, 50, 500, 5e3, 5e4, 5e5, 2e6, 8e6, 1.2e7, 1.5e7)
 	}
 	// latitudes with lat + r/R within a few ulps of the pole, for every radius
 	var tang []float64
@@ -221,7 +221,7 @@ func runC14(r *rt.Run) {
 	}
 	bstep := 5.0
 	if th {
-		bstep = 1
+		bstep = 0.5
 	}
 	r.Bounds["latitudes"] = len(lats) + len(tang)
 	r.Bounds["longitudes"] = lons
@@ -272,9 +272,10 @@ func runC13(r *rt.Run) {
 	offsets := []float64{-0.0015, 0.0015, -0.004, 0.004}
 	bstep := 15.0
 	if th {
-		bstep = 3
-		centres = append(centres, ctr{-0.0001, 60}, ctr{100, -75}, ctr{179.9999, 89})
-		radii = append(radii, 100, 1e4, 3e6, 1.5e7)
+		bstep = 1
+		centres = append(centres, ctr{-0.0001, 60}, ctr{100, -75}, ctr{179.9999, 89}, ctr{-179.9999, -0.0001}, ctr{30, 45}, ctr{-60, -89.9}, ctr{0, 89.999999})
+		radii = append(radii, 100, 1e4, 3e6, 1.5e7, 0.25, 2, 55.5, 12345.678, 2e6, 1.9e7)
+		factors = append(factors, 0.25, 0.9, 1-1e-6, 1+1e-6, 1.1, 2)
 	}
 	r.Bounds["centres"] = len(centres)
 	r.Bounds["radii"] = radii
